@@ -4,6 +4,7 @@ import os
 from .. import common
 from ..common import log
 from . import c04_stmt
+from . import c04_ctl
 
 # family, segments usable for data with their granularity, statement templates
 # (documented family ids from doc/file-formats.md; word data is little endian in the code file)
@@ -335,6 +336,11 @@ def run(args):
         for i in range(6 if quick else 40):
             src, tail, st, used = c04_stmt.gen_rept(rng2, TARGETS, data_stmt, reserve_stmt, args.tier)
             progs.append((src, tail + qtok, st, "rept:%d" % i, used))
+        # record boundaries decided by the statement layer: processor / address space changed by CPU, SEGMENT, SAVE / RESTORE
+        rng3 = common.rng_for(args.seed, "C04-ctl")
+        for i in range(60 if quick else 700):
+            src, tail, st, used = c04_ctl.gen_ctl(rng3, TARGETS, data_stmt, reserve_stmt, args.tier, shape="wrap" if i % 5 < 2 else None)
+            progs.append((src, tail, st, "ctl:%d" % i, used))
         # sources for the joint runs (each is also judged alone, like every other program)
         plans = c04_stmt.session_plan(rng2, args.tier)
         sess = []     # per plan: [index into progs]
@@ -445,7 +451,8 @@ def run(args):
         evaluations=len(reqs) + sum(len(m[1]) for m in smetas), distinct_nontrivial=len(distinct),
         rule="random data/reservation/ORG/SEGMENT/CPU/END programs over 9 targets (gran 1/2/4), lengths from pools around 511/512/513, 1023..1025, 65534/65535; "
              "BINCLUDE of generated files (0..140000 bytes; whole / offset / offset+length) at chosen fill levels of the open record on 6 byte-addressed targets with 16 MiB..4 GiB address spaces; "
-             "REPT bodies and nested DUP groups; joint runs of 2..4 sources ending in END <address> / END / nothing in every order (at most 6 per set in the quick tier), output names by default and by -o, "
+             "REPT bodies and nested DUP groups; statement-level sources (CPU over 13 processors of 9 families incl. two members of one family, SEGMENT, ORG also to the current address, reservations, "
+             "SAVE / RESTORE nested up to 5 deep restoring processor, address space, both or neither, data directly behind RESTORE) judged by Model/CodeCtl + specCellsC; joint runs of 2..4 sources ending in END <address> / END / nothing in every order (at most 6 per set in the quick tier), output names by default and by -o, "
              "with and without a forced further pass; non-trivial = at least one emitting statement; distinct by event list / by (source set, order, naming, passes)",
         samples=samples, distribution=agg)
     res.assumptions = ["generator's byte encoding of data statements (little-endian words on PIC/C3x) is the oracle for what the source specifies",
